@@ -352,6 +352,13 @@ fn run_behaviour(
                 Some(obs) => obs,
                 None => site.backend.exec(&v, &input),
             };
+            if input.prelude.iter().any(|s| s.kind == "renumber")
+                && let Backend::Direct(d) = &site.backend
+                && let Some(name) = d.world.current_class()
+            {
+                // (the class has a new name from here on)
+                site.class_name = name;
+            }
             driver.bump("exec_us", t0.elapsed().as_micros() as u64);
             driver.bump("inputs", 1);
             let dead = matches!(obs.out.as_str(), "panic" | "exit");
